@@ -64,6 +64,11 @@ CHECKS = {
             'launched children, re-entrant child.execute() (nested loop runs), callbacks and hooks; every piece of generated '
             'user code probes Process.current(), a sampler checks it between all handles of outer and nested loops', '5 C18',
             'deterministic simulation: virtual-time interleaving search with in-code probes'),
+    'C20': ('exploration', 'seeded search over adapter x nesting depth x outcome (value/exception/cancellation) at a chosen level x '
+            'every completion order and loop placement of the levels; the adapters (create_task, plum_to_kiwi_future + '
+            'unwrap_kiwi_future, the _schedule_rpc reply reached through message_receive, CancellableAction) run on the '
+            'simulated loop, their final futures are compared with the innermost outcome reached', '5 C20',
+            'deterministic simulation: seeded completion-order search over future chains'),
 }
 
 NOT_APPLICABLE = [
@@ -77,7 +82,6 @@ NOT_APPLICABLE = [
 ]
 
 PENDING = {
-    'C20': 'check under construction in this session',
 }
 
 
